@@ -1010,3 +1010,193 @@ Proof.
       all: rewrite ?len_app; destruct brk_; unfold len, nl4; cbn [length]; rewrite ?app_length; cbn [length]; rewrite ?app_length; cbn [length]; lia.
     + right. reflexivity.
 Qed.
+
+(* ---- tokens of goodc values contain no '.' ------------------------------------------------ *)
+Lemma esc_str_ne c e : as_escaped_char c false = Some e -> e <> 46.
+Proof.
+  unfold as_escaped_char.
+  repeat match goal with
+         | |- context [if ?a =? ?b then _ else _] =>
+             destruct (a =? b); [intros H; try discriminate H; inversion H; lia|]
+         end.
+  cbn [andb negb]. destruct (c =? 34); intros H; inversion H; lia.
+Qed.
+
+Lemma print_chars_nodot ll s : forall cols, nodot s -> nodot (fst (print_chars false ll s cols)).
+Proof.
+  induction s as [|c s IH]; intros cols Hs; [constructor|].
+  inversion Hs as [|? ? Hc Hs']; subst. cbn [print_chars negb andb].
+  assert (Hb : nodot brk) by (repeat constructor; lia).
+  destruct (ll - 3 <? cols); destruct (as_escaped_char c false) as [e|] eqn:Ee;
+    try (pose proof (esc_str_ne _ _ Ee)); try destruct (e =? 110);
+    repeat match goal with
+           | |- context [print_chars false ll s ?k] =>
+               let H := fresh "Hk" in pose proof (IH k Hs') as H; destruct (print_chars false ll s k) as [? ?]
+           end; cbn [fst] in *;
+    repeat (apply Forall_app; split); try assumption; try (repeat constructor; lia).
+Qed.
+
+Section GoodcTok.
+Variables dec2f dec2d : list Z -> Z.
+
+Lemma goodc_tok o v cols t w c :
+  goodc v -> print_scalar o v cols = Some (t, w, c) ->
+  tokof dec2f dec2d v t /\ nodot t /\ w = len t.
+Proof.
+  intros Hg Hp. destruct (scalar_tok dec2f dec2d o v cols t w c (goodc_good v Hg) Hp) as [Htk Hw].
+  split; [exact Htk|]. split; [|exact Hw].
+  destruct v; cbn [goodc] in Hg; try contradiction; cbn in Hp.
+  - inversion Hp; subst. exact (proj1 (tok_k_chars KI i Hg)).
+  - inversion Hp; subst. exact (proj1 (tok_k_chars KH h Hg)).
+  - inversion Hp; subst. exact (proj1 (tok_k_chars KC c0 Hg)).
+  - inversion Hp; subst. repeat constructor; lia.
+  - inversion Hp; subst. repeat constructor; lia.
+  - inversion Hp; subst. repeat constructor; lia.
+  - inversion Hp; subst. repeat constructor; lia.
+  - destruct Hg as [_ Hnd]. unfold print_string in Hp. cbn [andb] in Hp.
+    pose proof (print_chars_nodot (linelength o) s (cols + 1) Hnd) as Hb.
+    destruct (print_chars false (linelength o) s (cols + 1)) as [body c1]. inversion Hp; subst. cbn [fst] in Hb.
+    constructor; [lia|]. apply Forall_app. split; [assumption|repeat constructor; lia].
+  - destruct Hg as (_ & Hpl & Hnd). unfold print_string in Hp. rewrite Hpl in Hp. cbn [andb] in Hp.
+    pose proof (print_chars_nodot (linelength o) s (cols + 1) Hnd) as Hb.
+    destruct (print_chars false (linelength o) s (cols + 1)) as [body c1]. inversion Hp; subst. cbn [fst] in Hb.
+    constructor; [lia|]. apply Forall_app. split; [assumption|repeat constructor; lia].
+Qed.
+End GoodcTok.
+
+(* ---- one iteration of the printer's loop ---------------------------------------------------- *)
+Lemma nth_firstn {A} (l l' : list A) m j : firstn m l = l' -> (j < m)%nat -> nth_error l j = nth_error l' j.
+Proof.
+  intros <- Hj. revert l j Hj. induction m as [|m IH]; intros l j Hj; [lia|].
+  destruct l as [|x l]; [now destruct j|]. destruct j as [|j]; [reflexivity|]. cbn. apply IH. lia.
+Qed.
+
+Definition ilast (its : list item) : option av :=
+  match rev its with it :: _ => Some (item_last it) | [] => None end.
+
+Section PrintLoop.
+Variables dec2f dec2d : list Z -> Z.
+Variable o : popts.
+Hypothesis Hon : compress o = true.
+Notation item_ok := (item_ok dec2f dec2d).
+
+Definition iter_text (p : option av) (its : list item) (t : list Z) : Prop :=
+  match its with
+  | [it] => t = item_text it /\ item_ok p it
+  | [it1; it2] => t = item_text it1 ++ [32] ++ item_text it2 /\ item_ok p it1 /\
+                  item_ok (Some (item_last it1)) it2
+  | _ => False
+  end.
+
+Lemma print_range_const_eq n a0 y cols prev :
+  0 < n -> scalar a0 ->
+  print_arg_val o [VRep n 0; a0; VSpc y] cols prev =
+  match print_scalar o a0 (cols + len (dec_nat n ++ [120])) with
+  | Some (t, w, c') => Some ((dec_nat n ++ [120]) ++ t, len (dec_nat n ++ [120]) + w, c', false)
+  | None => None end.
+Proof.
+  intros Hn Hs. assert (Ed : print_d n = dec_nat n) by (unfold print_d; now replace (n <? 0) with false by lia).
+  destruct (print_scalar o a0 (cols + len (dec_nat n ++ [120]))) as [[[t w] c']|] eqn:E.
+  - rewrite <- Ed in *. now apply print_range_const.
+  - unfold print_arg_val. rewrite pavf_rep. unfold print_range. cbv beta iota.
+    rewrite Hon. replace (n =? 0) with false by lia. cbn [negb orb Z.eqb].
+    rewrite (pav_scalar o a0 _ _ None 4 Hs). rewrite Ed, E. reflexivity.
+Qed.
+
+Lemma print_iter a0 rest size prev t tmp cols cols1 bb cv :
+  Forall goodc (a0 :: rest) -> Z.of_nat (length (a0 :: rest)) < 2 ^ 31 ->
+  (forall p, prev = Some p -> scalar p) ->
+  convert_to_range o (a0 :: rest) size = cv -> cv <> CUnmod ->
+  print_arg_val o (match cv with CYes c _ => c | _ => a0 :: rest end) cols prev = Some (t, tmp, cols1, bb) ->
+  exists its inc,
+    bb = false /\ tmp = len t /\
+    Z.of_nat inc = (match cv with CYes _ kk => kk | _ => next_arg_offset (a0 :: rest) end) /\
+    (1 <= inc <= length (a0 :: rest))%nat /\
+    iorig its = firstn inc (a0 :: rest) /\ iter_text prev its t /\
+    nth_error (a0 :: rest) (inc - 1) = ilast its.
+Proof.
+  intros Hg Hlen Hprev Hcv Hnu Hp.
+  pose proof (Forall_inv Hg) as Hg0. destruct (goodc_facts a0 Hg0) as (Hs0 & _ & Hex0).
+  assert (Hsc : Forall scalar (a0 :: rest)) by (eapply Forall_impl; [|exact Hg]; intros a Ha; apply (goodc_facts a Ha)).
+  assert (Hin : Forall inrv (a0 :: rest)) by (eapply Forall_impl; [|exact Hg]; intros a Ha; apply (goodc_facts a Ha)).
+  destruct cv as [|c kk|]; [| |congruence].
+  - (* no conversion: one value *)
+    unfold print_arg_val in Hp. rewrite (pav_scalar o a0 rest cols prev 5 Hs0) in Hp.
+    destruct (print_scalar o a0 cols) as [[[t' w'] c']|] eqn:Eps; [|discriminate]. inversion Hp; subst.
+    destruct (goodc_tok dec2f dec2d o a0 cols t tmp cols1 Hg0 Eps) as (Htk & Hnd & Hw).
+    exists [IVal a0 t], 1%nat. split; [reflexivity|]. split; [exact Hw|].
+    split; [destruct a0; cbn in Hs0; try contradiction; reflexivity|]. split; [cbn [length]; lia|].
+    split; [reflexivity|]. split; [split; [reflexivity|split; assumption]|reflexivity].
+  - destruct (range_expand_shape o (a0 :: rest) size c kk Hsc Hin Hex0 Hlen Hcv) as (n & -> & Hn5 & Hexp & Hshape).
+    destruct Hn5 as [Hn5 Hnl].
+    destruct Hshape as [[[y Ec] Hrep]|(k & d & x & y & Ec & Hdr & Hhd & Hd0)]; subst c; cbn [hd] in *.
+    + (* N x value *)
+      rewrite (print_range_const_eq (Z.of_nat n) a0 y cols prev ltac:(lia) Hs0) in Hp.
+      destruct (print_scalar o a0 (cols + len (dec_nat (Z.of_nat n) ++ [120]))) as [[[t' w'] c']|] eqn:Eps;
+        [|discriminate]. inversion Hp; subst.
+      destruct (goodc_tok dec2f dec2d o a0 _ t' w' cols1 Hg0 Eps) as (Htk & Hnd & Hw).
+      exists [IRep (Z.of_nat n) a0 t'], n. split; [reflexivity|].
+      split; [rewrite !len_app; lia|]. split; [reflexivity|]. split; [lia|].
+      split; [unfold iorig; cbn [map concat item_orig]; now rewrite app_nil_r, Nat2Z.id|].
+      split.
+      * cbn [iter_text item_text item_ok]. split; [now rewrite <- app_assoc|]. split; [lia|]. split; assumption.
+      * rewrite (nth_firstn (a0 :: rest) _ n (n - 1) Hrep) by lia. cbn [ilast rev app item_last].
+        clear -Hn5. assert (n = S (n - 1)) by lia. rewrite H at 1. cbn [repeat]. generalize (n - 1)%nat. intros m.
+        induction m as [|m IH]; [reflexivity|exact IH].
+    + (* a run with a step *)
+      subst a0. rewrite expand_delta in Hexp by lia. rewrite Nat2Z.id in Hexp. inversion Hexp as [Hm]. clear Hexp.
+      assert (Hsx : small_k k x) by (apply goodc_mk; exact Hg0).
+      assert (Hsm : forall j, (j < n)%nat -> small_k k (wr k (x + Z.of_nat j * d))).
+      { intros j Hj. apply goodc_mk. eapply Forall_forall; [exact Hg|].
+        eapply nth_error_In. rewrite (nth_firstn (mk k x :: rest) _ n j (eq_sym Hm) Hj).
+        rewrite nth_error_map, nth_error_nth' with (d := 0%nat) by (rewrite seq_length; lia).
+        rewrite seq_nth by lia. reflexivity. }
+      pose proof (small_chain k x d n Hsx Hdr Hsm) as Hex.
+      set (last := x + (Z.of_nat n - 1) * d).
+      assert (Hlast : wr k (x + (Z.of_nat n - 1) * d) = last).
+      { replace (Z.of_nat n - 1) with (Z.of_nat (n - 1)) by lia. rewrite Hex by lia. unfold last. f_equal. f_equal. lia. }
+      assert (Hsec : wr k (x + 1 * d) = x + d).
+      { replace 1 with (Z.of_nat 1) by reflexivity. rewrite Hex by lia. lia. }
+      destruct (print_range_delta o k d x (Z.of_nat n) y cols prev last Hon ltac:(lia) Hd0 Hsec Hlast Hprev)
+        as (sp & t' & c' & Hsp & Hpr & Hshape).
+      rewrite Hpr in Hp. inversion Hp; subst t' tmp c' bb. clear Hp.
+      assert (Hslast : small_k k last).
+      { unfold last. specialize (Hsm (n - 1)%nat ltac:(lia)). rewrite Hex in Hsm by lia.
+        replace (Z.of_nat (n - 1)) with (Z.of_nat n - 1) in Hsm by lia. exact Hsm. }
+      assert (Hnth : nth_error (mk k x :: rest) (n - 1) = Some (mk k last)).
+      { rewrite (nth_firstn (mk k x :: rest) _ n (n - 1) (eq_sym Hm)) by lia.
+        rewrite nth_error_map, nth_error_nth' with (d := 0%nat) by (rewrite seq_length; lia).
+        rewrite seq_nth by lia. cbn [option_map]. rewrite Hex by lia. unfold last. do 3 f_equal. lia. }
+      destruct Hshape as [(Et & Hd1 & Hnc)|Et]; subst t.
+      * exists [ITail k x d (Z.of_nat n) last sp], n. split; [reflexivity|]. split; [reflexivity|].
+        split; [reflexivity|]. split; [lia|]. split.
+        { unfold iorig. cbn [map concat item_orig]. rewrite app_nil_r, Nat2Z.id, <- Hm.
+          apply map_ext_in. intros j Hj. apply in_seq in Hj. now rewrite Hex by lia. }
+        split; [|exact Hnth].
+        cbn [iter_text item_text item_ok]. split; [reflexivity|]. split; [|split; [exact Hsp|]].
+        { unfold run_ok. repeat split; try assumption; try lia. }
+        unfold ctx_ok, unit_step. destruct prev as [p|]; [|split; [assumption|lia]].
+        rewrite (types_match_kind p k x (Hprev p eq_refl)). cbn [notconf] in Hnc.
+        destruct Hnc as [Hne| ->].
+        -- replace (av_type p =? av_type (mk k x)) with false by (symmetry; now apply Z.eqb_neq). split; [assumption|lia].
+        -- rewrite Z.eqb_refl. exists x. split; [reflexivity|]. left. split; [reflexivity|]. split; [assumption|lia].
+      * exists [IVal (mk k x) (tok_k k x); ITail k (x + d) d (Z.of_nat n - 1) last sp], n.
+        split; [reflexivity|]. split; [reflexivity|]. split; [reflexivity|]. split; [lia|]. split.
+        { unfold iorig. cbn [map concat item_orig]. rewrite app_nil_r, <- Hm.
+          rewrite (map_ext_in _ (fun j => mk k (x + Z.of_nat j * d)) (seq 0 n))
+            by (intros j Hj; apply in_seq in Hj; now rewrite Hex by lia).
+          clear - Hn5. destruct n as [|m]; [lia|]. replace (Z.to_nat (Z.of_nat (S m) - 1)) with m by lia.
+          cbn [seq map app]. f_equal; [f_equal; lia|].
+          rewrite <- seq_shift, map_map. apply map_ext. intros j. f_equal. lia. }
+        split; [|exact Hnth].
+        cbn [iter_text item_text item_ok item_last]. split; [reflexivity|].
+        assert (Hsxd : small_k k (x + d)).
+        { specialize (Hsm 1%nat ltac:(lia)). rewrite Hex in Hsm by lia. now replace (x + Z.of_nat 1 * d) with (x + d) in Hsm by lia. }
+        split; [split; [apply tok_k_tokof; now apply small_good|exact (proj1 (tok_k_chars k x Hsx))]|].
+        split; [|split; [exact Hsp|]].
+        { unfold run_ok. repeat split; try assumption; try lia; try (unfold last; lia). }
+        unfold ctx_ok. rewrite (types_match_kind (mk k x) k (x + d)) by now destruct k.
+        replace (av_type (mk k x) =? av_type (mk k (x + d))) with true by (destruct k; reflexivity).
+        exists x. split; [reflexivity|]. right. split; lia.
+Qed.
+End PrintLoop.
